@@ -209,6 +209,48 @@ func structural(wire []byte, otherSession []byte, plaintext []byte) []mutant {
 			return p, set(u, 1, id)
 		})
 	}
+	// injection into header maps no authentication covers: the unprotected map of the outer COSE_Mac0 and of the
+	// COSE_Encrypt0. Every label 1..7 (alg, crit, content type, kid, IV, partial IV, countersignature) x values derived
+	// from the message's own IV and algorithm: whatever the receiver does with such an entry, it must fail or return
+	// the sender's plaintext.
+	{
+		var iv []byte
+		find := func(m *rc.Item) {
+			for i := 0; m != nil && i+1 < len(m.Items); i += 2 {
+				if m.Items[i].Kind == rc.Uint && m.Items[i].U == 5 && m.Items[i+1].Kind == rc.Bytes {
+					iv = m.Items[i+1].B
+				}
+			}
+		}
+		find(e.Items[1])
+		if len(e.Items[0].B) > 0 {
+			if pm, _, err := rc.Parse(e.Items[0].B); err == nil {
+				find(pm)
+			}
+		}
+		type nv struct {
+			name string
+			v    *rc.Item
+		}
+		vals := []nv{{"empty", rc.Bs(nil)}, {"zero16", rc.Bs(make([]byte, 16))}, {"zero12", rc.Bs(make([]byte, 12))}, {"int1", rc.U(1)}, {"alg-gcm", rc.U(1)}, {"alg-ctr", rc.N(65533)}, {"alg-cbc", rc.N(65530)}, {"null", rc.Null()}}
+		if len(iv) > 0 {
+			vals = append(vals, nv{"iv-same", rc.Bs(iv)}, nv{"iv-bit0", rc.Bs(flip(iv, 0))}, nv{"iv-bitlast", rc.Bs(flip(iv, len(iv)*8-1))}, nv{"iv-bit7", rc.Bs(flip(iv, 7))}, nv{"iv-shorter", rc.Bs(iv[:len(iv)-1])})
+		}
+		for label := uint64(1); label <= 7; label++ {
+			for _, x := range vals {
+				if top.U == 17 {
+					a := arr.Clone()
+					a.Items[1] = set(a.Items[1], label, x.v)
+					add(fmt.Sprintf("mac0-unprot-inject:%d:%s", label, x.name), rc.Tg(17, a))
+				}
+				if label != 5 && label != 1 {
+					c := e.Clone()
+					c.Items[1] = set(c.Items[1], label, x.v)
+					add(fmt.Sprintf("enc0-unprot-inject:%d:%s", label, x.name), wrap(c))
+				}
+			}
+		}
+	}
 	// ciphertext manipulations
 	ct := func(op string, v *rc.Item) {
 		c := e.Clone()
@@ -230,6 +272,12 @@ func structural(wire []byte, otherSession []byte, plaintext []byte) []mutant {
 	}
 	out = append(out, mutant{"plaintext-substitution", plaintext})
 	return out
+}
+
+func flip(b []byte, i int) []byte {
+	o := bytes.Clone(b)
+	o[i/8] ^= 1 << (i % 8)
+	return o
 }
 
 func layerA(s kex.Suite, c kex.CipherSuiteID, sizes []int) {
@@ -504,7 +552,7 @@ func main() {
 	if !r.Quick() {
 		sizes = append(sizes, 200)
 	}
-	r.Rule("Layer A: 6 key exchanges x 7 cipher suites (sessions from the real Parameter/SetParameter), both directions, payload lengths {0,1,15,16,17(,200)}: EVERY bit of the protected wire object plus ~60 structural operators (strip/forge COSE_Mac0, re-tag, untag, drop/resize/retype IV, drop/move/replace alg header, null/empty/truncated/extended/short ciphertext, cross-session ciphertext, plaintext substitution) delivered to the real peer Decrypt: it must fail or return exactly the sender's plaintext; IVs pairwise distinct; plaintext not on the wire. Layer B: in a real TO2 over the HTTP transport, every protected message position in both directions x {strip-mac0, retag, plaintext, cross-session, empty, truncate, one byte flip per (sampled in quick: ~24 per message; all in thorough) byte}: the run must fail with no credential and no voucher replacement. distinct = distinct (suite,length,outcome,operator) classes.")
+	r.Rule("Layer A: 6 key exchanges x 7 cipher suites (sessions from the real Parameter/SetParameter), both directions, payload lengths {0,1,15,16,17(,200)}: EVERY bit of the protected wire object plus ~60 structural operators plus ~180 header-injection operators (every label 1..7 x IV/algorithm-derived values written into the unauthenticated header maps of the COSE_Mac0 and COSE_Encrypt0 layers) (strip/forge COSE_Mac0, re-tag, untag, drop/resize/retype IV, drop/move/replace alg header, null/empty/truncated/extended/short ciphertext, cross-session ciphertext, plaintext substitution) delivered to the real peer Decrypt: it must fail or return exactly the sender's plaintext; IVs pairwise distinct; plaintext not on the wire. Layer B: in a real TO2 over the HTTP transport, every protected message position in both directions x {strip-mac0, retag, plaintext, cross-session, empty, truncate, one byte flip per (sampled in quick: ~24 per message; all in thorough) byte}: the run must fail with no credential and no voucher replacement. distinct = distinct (suite,length,outcome,operator) classes.")
 	var wg sync.WaitGroup
 	sem := make(chan struct{}, 16)
 	for _, s := range suites {
